@@ -146,6 +146,10 @@ func cmdCheck(argv []string) int {
 	if *prop == "C18" && *only == "" {
 		extraReps = append(extraReps, bindCheck(l, *prop, "/x/oracle/keeper", "AttestationHandler", "AttestationHandler"))
 	}
+	if *prop != "C20" && *prop != "C14" && *prop != "C07" && *only == "" {
+		// every check that reasons about the store relies on the key-family table
+		extraReps = append(extraReps, keyTableCheck(l, *prop, *prop == "C18" || *prop == "C15" || *prop == "C06")...)
+	}
 	if *prop == "C15" && *only == "" {
 		extraReps = append(extraReps, genesisCoverage(l, *prop)...)
 	}
